@@ -132,6 +132,7 @@ type ReaderCfg struct {
 	Tunnel  string // "" | "http" | "ws"
 	Timeout time.Duration
 	Reorder int   // percentage of inbound UDP datagrams swapped with their successor
+	Dup     int   // percentage of inbound UDP datagrams delivered twice
 	Seed    int64 // seed of the reordering
 	Extra   func(c *gortsplib.Client)
 }
@@ -194,13 +195,15 @@ func (b *Bed) NewReader(cfg ReaderCfg, path string, onPacket func(medi *descript
 			}
 		}
 	}
-	if cfg.Reorder > 0 {
+	if cfg.Reorder > 0 || cfg.Dup > 0 {
 		c.ListenPacket = func(network, address string) (net.PacketConn, error) {
 			pc, err := net.ListenPacket(network, address)
 			if err != nil {
 				return nil, err
 			}
-			return NewReorderConn(pc, cfg.Reorder, cfg.Seed), nil
+			rc := NewReorderConn(pc, cfg.Reorder, cfg.Seed)
+			rc.Dup = cfg.Dup
+			return rc, nil
 		}
 	}
 	c.OnPacketsLost = func(_ uint64) {}
